@@ -5,11 +5,21 @@ import (
 	"go/ast"
 	"go/parser"
 	"go/token"
+	"os"
 	"strings"
 )
 
 func init() {
 	genSections = append(genSections, genStateAtomicity)
+}
+
+// repoRoot is the source tree the generator reads: /repo, unless VERIF_REPO names a scratch
+// worktree (used only by the parallel sweep over the seeded changes, lib/sweep_par.sh).
+func repoRoot() string {
+	if v := os.Getenv("VERIF_REPO"); v != "" {
+		return v
+	}
+	return "/repo"
 }
 
 // lockedWhole reports whether the method's body starts with `recv.lock.Lock()` followed by
@@ -46,7 +56,7 @@ func lockedWhole(fn *ast.FuncDecl) bool {
 // Out only.
 func genStateAtomicity(sb *strings.Builder) error {
 	fset := token.NewFileSet()
-	f, err := parser.ParseFile(fset, "/repo/state/session_encryption.go", nil, 0)
+	f, err := parser.ParseFile(fset, repoRoot()+"/state/session_encryption.go", nil, 0)
 	if err != nil {
 		return err
 	}
